@@ -147,6 +147,8 @@ NewFault == g'.faults = g.faults + 1
 WriteErr == {11, 12, 13, 36}
 TCreateOk   == With(CreateTmp /\ NoNewFault, IsOp("tmp", "create") /\ Ev.ok, <<>>)
 TCreateFail == With(CreateTmp /\ NewFault, IsOp("tmp", "create") /\ ~Ev.ok, <<{9}>>)
+(* the name of the scratch file cannot be formed (TMPDIR is not valid UTF-8): the same failure without any operation *)
+TCreateFailSilent == Silent(CreateTmp /\ NewFault, <<{9}>>)
 WriteSlotSays == IF p.pc # "write" \/ p.cur = Null THEN <<>>
                  ELSE IF p.cur.err THEN <<WriteErr>>
                  ELSE IF p.cur.pos < Len(p.cur.data) /\ Missing(p.cur.data[p.cur.pos + 1]) /\ p.counter >= MaxId THEN <<{38}>>
@@ -198,7 +200,7 @@ TNext ==
   \/ Silent(ReadLock, ReadLockSays) \/ Silent(InstallHandlers, HandlersSay) \/ TDiscover
   \/ LoopHead(ScanFile) \/ LoopHead(Pass1File) \/ LoopHead(Pass2Next) \/ TSkipUnreadable
   \/ TCfgFail \/ TReadLockFail \/ TDiscoverFail
-  \/ TCreateOk \/ TCreateFail \/ TWriteSlot \/ TDrainOk \/ TDrainFail \/ TFlushOk \/ TFlushFail
+  \/ TCreateOk \/ TCreateFail \/ TCreateFailSilent \/ TWriteSlot \/ TDrainOk \/ TDrainFail \/ TFlushOk \/ TFlushFail
   \/ TRenameOk \/ TRenameFail \/ TDrop
   \/ TLockTruncOk \/ TLockTruncFail \/ TLockWriteOk \/ TLockWriteFail
   \/ Silent(Exit, ExitSays) \/ TSigArrive \/ TSigApply \/ TKill
